@@ -140,9 +140,14 @@ def assign_case(draw, tier="quick"):
         odd = None
     odd_set = cls in ("narrower", "wider", "incompatible", "none") and not (cls in ("narrower", "wider") and odd is None)
     seq = list(base)
+    pos = None
     if odd_set and seq:
         pos = draw(st.sampled_from([0, len(seq) // 2, len(seq) - 1]))
         seq[pos] = odd
+    if draw(st.integers(0, 3)) == 0 and len(seq) >= 2 and cls in ("incompatible", "wider", "same"):
+        # a None next to the odd element (before or after it)
+        free = [i for i in range(len(seq)) if not (odd_set and i == pos)]
+        seq[draw(st.sampled_from(free))] = None
     if cls == "mixed_wider" and kind in ("int", "bool", "float") and len(seq) >= 2:
         ups = LADDER_UP[kind]
         seq[0] = draw(elems(ups[0]))
